@@ -30,7 +30,7 @@ def explore(world, contract, max_paths=4000):
     fi = world.index.by_fq(contract.fq)
     work = [[]]
     paths, obligations = [], []
-    stats = {"calls_inlined": set(), "calls_by_contract": set(), "stubs_used": set()}
+    stats = {"calls_inlined": set(), "calls_by_contract": set(), "stubs_used": set(), "assumed": set()}
     pid = 0
     while work:
         prefix = work.pop()
@@ -631,7 +631,7 @@ def model_to_dict(m):
     return out
 
 
-def verify_function(world, contract, use_cvc5=True, known=(), only_prop=None, part=None):
+def verify_function(world, contract, use_cvc5=True, known=(), only_prop=None, part=None, ob_filter=None):
     """Full per-function run. Returns a JSON-able dict."""
     import re
     t0 = time.time()
@@ -647,6 +647,8 @@ def verify_function(world, contract, use_cvc5=True, known=(), only_prop=None, pa
     n_all = len(obligations)
     if only_prop is not None:
         obligations = [ob for ob in obligations if only_prop in ob.props]
+    if ob_filter is not None:
+        obligations = [ob for ob in obligations if ob_filter(ob)]
     if part is not None:  # (i, n): this worker discharges every n-th obligation (the exploration is repeated per worker)
         obligations = [ob for k, ob in enumerate(obligations) if k % part[1] == part[0]]
     pre_verdicts = discharge_batches(obligations)
@@ -712,6 +714,7 @@ def verify_function(world, contract, use_cvc5=True, known=(), only_prop=None, pa
         "backends": {k: {"count": v[0], "time_s": round(v[1], 3)} for k, v in backends.items()},
         "inlined": sorted(stats["calls_inlined"]),
         "by_contract": sorted(stats["calls_by_contract"]),
+        "assumed": sorted(stats["assumed"]),
         "stubs": sorted(stats["stubs_used"]),
     }
 
